@@ -462,7 +462,7 @@ def c18(ck):
                "consultation log of the small-step machine Eval.tla run with the same script (TraceStep.tla), which also "
                "asserts on the model that the script does not change the outcome")
     q = ck.quick
-    for which, size in (("c01", 2 if q else 3), ("c03", 2), ("c12", 2), ("cx", 2 if q else 3)):
+    for which, size in (("c01", 2 if q else 3), ("c03", 2), ("c12", 2), ("cx", 2 if q else 3), ("cl", 2)):
         consts = {"Which": '"%s"' % which, "MaxSize": size}
         r = ck.tlc("GenC18", cfg(constants=consts), timeout=1500)
         ck.tlc_ok(r, "GenC18")
